@@ -39,6 +39,9 @@ pub fn load_bytecode(bs: &Store, cid: &Cid) -> (r: Result<Option<Bytecode>, Acto
 
 pub uninterp spec fn eth_of_fil(a: Address) -> EthAddress;
 impl<'r> System<'r> {
+    /// call_gas_limit (system.rs): min(requested, 63/64 of the gas left) — a number; gas is not modelled
+    #[verifier::external_body]
+    pub fn call_gas_limit(&self, gas: U256) -> (r: u64) { unimplemented!() }
     #[verifier::external_body]
     pub fn resolve_ethereum_address(&self, addr: &Address) -> (r: Result<EthAddress, ActorError>)
         ensures addr.proto == 0 ==> r.is_ok(), r.is_ok() ==> r->Ok_0 == eth_of_fil(*addr),
